@@ -1118,7 +1118,7 @@ func (m *metadataAPI) AddStream(protoStream *proto.Stream, recovered bool, epoch
 		if err := existing.Close(); err != nil {
 			return nil, err
 		}
-		m.removeStream(existing, epoch)
+		m.forgetStream(existing)
 	}
 
 	config := protoStream.GetConfig()
@@ -1479,8 +1479,12 @@ func (m *metadataAPI) RemoveStream(stream *stream, recovered bool, epoch uint64)
 	// recreate will un-tombstone the stream.
 	if recovered {
 		stream.Tombstone()
+		// Consumer groups see the deletion at the epoch of the operation,
+		// as they do outside of recovery, so a replaying server ends up
+		// with the same group state as the servers that applied it live.
+		m.notifyStreamDeleted(stream.GetName(), epoch)
 	} else {
-		if err := m.deleteStream(stream, epoch); err != nil {
+		if err := m.deleteStream(stream, epoch, true); err != nil {
 			return err
 		}
 	}
@@ -1510,7 +1514,8 @@ func (m *metadataAPI) RemoveTombstonedStream(stream *stream, epoch uint64) error
 	}
 	m.mu.Lock()
 	defer m.mu.Unlock()
-	return m.deleteStream(stream, epoch)
+	// Consumer groups were notified when the stream was tombstoned.
+	return m.deleteStream(stream, epoch, false)
 }
 
 // LostLeadership should be called when the server loses metadata leadership.
@@ -1524,7 +1529,7 @@ func (m *metadataAPI) LostLeadership() {
 }
 
 // deleteStream deletes the stream and the associated on-disk data for it.
-func (m *metadataAPI) deleteStream(stream *stream, epoch uint64) error {
+func (m *metadataAPI) deleteStream(stream *stream, epoch uint64, notifyGroups bool) error {
 	err := stream.Delete()
 	if err != nil {
 		return errors.Wrap(err, "failed to delete stream")
@@ -1537,7 +1542,10 @@ func (m *metadataAPI) deleteStream(stream *stream, epoch uint64) error {
 		return errors.Wrap(err, "failed to delete stream data directory")
 	}
 
-	m.removeStream(stream, epoch)
+	m.forgetStream(stream)
+	if notifyGroups {
+		m.notifyStreamDeleted(stream.GetName(), epoch)
+	}
 	return nil
 }
 
@@ -1545,6 +1553,13 @@ func (m *metadataAPI) deleteStream(stream *stream, epoch uint64) error {
 // in-flight failovers for its partitions, and triggers a rebalance of consumer
 // group assignments.
 func (m *metadataAPI) removeStream(stream *stream, epoch uint64) {
+	m.forgetStream(stream)
+	m.notifyStreamDeleted(stream.GetName(), epoch)
+}
+
+// forgetStream removes the stream from the stream store and cancels any
+// in-flight failovers for its partitions.
+func (m *metadataAPI) forgetStream(stream *stream) {
 	delete(m.streams, stream.GetName())
 	for _, partition := range stream.GetPartitions() {
 		failover, ok := m.partitionFailovers[partition]
@@ -1553,10 +1568,15 @@ func (m *metadataAPI) removeStream(stream *stream, epoch uint64) {
 			delete(m.partitionFailovers, partition)
 		}
 	}
+}
+
+// notifyStreamDeleted triggers a rebalance of consumer group assignments after
+// the deletion of a stream.
+func (m *metadataAPI) notifyStreamDeleted(name string, epoch uint64) {
 	m.startGoroutine(func() {
 		m.consumerGroupsMu.RLock()
 		for _, group := range m.consumerGroups {
-			group.StreamDeleted(stream.GetName(), epoch)
+			group.StreamDeleted(name, epoch)
 		}
 		m.consumerGroupsMu.RUnlock()
 	})
